@@ -16,8 +16,13 @@ def txt(a):
 def _wr_traces(rep, pid, tier):
     wd = workdir(pid)
     mx = 2 if tier == "quick" else 3
-    r = tlc("MC_Bundle", "SPECIFICATION Spec\nCONSTANTS MaxEx = %d\nINVARIANTS WrittenIsWellFormed ReadsBack\nCHECK_DEADLOCK FALSE\n" % mx, pid + "/mc", timeout=3000)
+    r = tlc("MC_Bundle", "SPECIFICATION Spec\nCONSTANTS MaxEx = %d\nTmpl = {1, 2, 3, 4, 5, 6, 7, 8, 9, 10}\nINVARIANTS WrittenIsWellFormed ReadsBack\nCHECK_DEADLOCK FALSE\n" % mx, pid + "/mc", timeout=3000)
     rep.add_tlc("MC_Bundle", r)
+    # one exchange more over the templates that mix a URL with several variants and a URL with one response
+    r2 = tlc("MC_Bundle", "SPECIFICATION Spec\nCONSTANTS MaxEx = %d\nTmpl = {3, 5, 6, 9, 10}\nINVARIANTS WrittenIsWellFormed ReadsBack\nCHECK_DEADLOCK FALSE\n" % (mx + 1), pid + "/mc2", timeout=3000)
+    rep.add_tlc("MC_Bundle(variants+plain)", r2)
+    seen = set(json.dumps(o, sort_keys=True) for t, o in r.lines)
+    r.lines += [(t, o) for t, o in r2.lines if json.dumps(o, sort_keys=True) not in seen]
     vp = os.path.join(wd, "vec.txt")
     nref = 0
     with open(vp, "w") as f:
